@@ -298,6 +298,11 @@ def run(tier):
         bdir = core.cargo_build(template="probe/mem", release=rel)
         builds["release" if rel else "debug"] = os.path.join(bdir, "memprobe")
 
+    if tier != "quick":
+        # the same symbols linked the other two ways (release): static (non-PIE) and self-relocating static PIE
+        for mode in ("static", "spie"):
+            bdir = core.cargo_build(template="probe/mem-" + mode, release=True)
+            builds[mode + "-release"] = os.path.join(bdir, "memprobe")
     conformance(chk, tier, builds["debug"])
     quick = tier == "quick"
     plans = []   # (tag, cmd, expected counts)
@@ -319,8 +324,10 @@ def run(tier):
     nontrivial = set()
     ncanary = 0
     per_fn = {}
+    boundary_plan = ("small", "small cpy,mov,set,cmp,bcmp %s sub" % ",".join(map(str, BOUNDARY)),
+                     expected_counts(BOUNDARY, {"cpy", "mov", "set", "cmp", "bcmp"}, False))
     for build, binary in builds.items():
-        for tag, cmd, expect in plans:
+        for tag, cmd, expect in (plans if build in ("debug", "release") else [boundary_plan, plans[-1]]):
             # (a complete plan takes seconds; a hang of the code under test is a TimedOut event)
             recs, status, partial = run_probe(binary, cmd, timeout=90 if quick else 600)
             meta = [r for r in recs if r.get("f") == "meta"]
